@@ -65,8 +65,9 @@ def main():
         rc3, out3 = sh(["go", "build", "-tags", "verif", "./..."], cwd=wt)
         res["builds_with_hooks"] = rc3 == 0
         res["checks"] = {}
-        for p in props:
-            for tier in (["thorough"] if thorough else ["quick", "thorough"]):
+        for pi, p in enumerate(props):
+            # the thorough tier is tried for the seed's own property only (when quick stays quiet)
+            for tier in (["thorough"] if thorough else (["quick", "thorough"] if pi == 0 else ["quick"])):
                 t0 = time.time()
                 rc, out = sh([os.path.join(VERIF, "check"), p, "--tier", tier, "--seed", "1"], cwd=VERIF, env=dict(ENV, VERIF_REPO=wt), timeout=7200)
                 lines = [l for l in out.split("\n") if l.startswith("VIOLATION") or l.startswith("# ") or l.startswith("OK ")]
